@@ -49,6 +49,8 @@ pub fn load(name: &str, k: u16) -> Result<Big, String> {
         "synthetic:chain44p2" => BooleanNetwork::try_from(chain_p2(44).as_str())?,
         // 26 independent variables a00..a12, b00..b12 (frozen): sets like OR_i (a_i & b_i) have ~2^13 BDD nodes
         "synthetic:pairs13" => BooleanNetwork::try_from(pairs(13).as_str())?,
+        // 32 frozen variables: AND_i (a_i <=> b_i) has ~2^17 BDD nodes (variables ordered a00..a15, b00..b15)
+        "synthetic:pairs16" => BooleanNetwork::try_from(pairs(16).as_str())?,
         // 44 variables (a 4-stage rising chain c0..c3 that only moves when all 14 zero-arity parameters
         // are true, plus 40 frozen inputs): 2^58 (state, colour) pairs, 2^44 states per colour, and
         // dynamics that differ from "frozen" in exactly one of the 16 384 colours
